@@ -75,6 +75,13 @@ class Gen:
     def coeffs(self, n):
         return np.array([float(self.rng.choice([0, 1, 2, -1, 0.5, 3, -2])) for _ in range(n)])
 
+    def coeffs_distinct(self, n):
+        base = self.rng.choice([1.0, 0.5, 2.0])
+        return np.array([base * (k + 1) * (-1 if k == 1 else 1) for k in range(n)])
+
+    def matrix_asym(self, n):
+        return np.array([[float(1 + 2 * i - j + (3 if i > j else 0)) for j in range(n)] for i in range(n)])
+
     def matrix(self, n):
         return np.array([[float(self.rng.choice([0, 1, 2, -1, 0.5])) for _ in range(n)] for _ in range(n)])
 
@@ -140,8 +147,10 @@ class Gen:
             return self.coeffs(n) - base          # reflected array op
         if k < 0.66:
             return base * self.coeffs(n)
-        if k < 0.72:
+        if k < 0.70:
             return -base
+        if k < 0.74:
+            return (base + 0) ** self.rng.choice([2, 3, 1, 2.0])   # VectorExpression power (a bare view gives ElementwisePower)
         if k < 0.78:
             return base / self.rng.choice([2, 4, 0.5])
         if k < 0.86 and self.profile != "poly":
@@ -153,16 +162,51 @@ class Gen:
         A = np.array([[float(self.rng.choice([0, 1, 2, -1])) for _ in range(n)] for _ in range(n if size is not None else self.rng.randint(1, 3))])
         return A @ base                            # MatrixVectorProduct (size = rows)
 
-    def reduction(self, depth):
+    RED_POLY = ["sum", "lincomb", "lincomb_e", "esum", "powsum_nat", "dot", "qf", "msum", "dot_hi", "siblings"]
+    RED_MORE = ["dot_overlap", "dot_e", "powsum", "unsum", "l2", "l1", "l2e", "l1e",
+                "qf_e", "msum_e", "frob", "trace", "vsumfn"]
+
+    def siblings(self):
+        """Distinct views of one vector whose NAMES coincide (a slice's name omits the step;
+        x[:], x[0:n] and x[::-1] are all called 'x[0:n]'), or that overlap."""
+        r = self.rng
+        x = r.choice(self.pool.vectors)
+        n = x.size
+        fam = [x[:], x[0:n], x[::-1]]
+        if n >= 3:
+            fam += [x[0:n:2], x[::-2]] if n % 2 == 0 else [x[0:n - 1:2], x[n - 2::-2] if n >= 4 else x[0:n - 1:2]]
+        a = r.choice(fam)
+        same = [v for v in fam if v.size == a.size and v is not a]
+        b = r.choice(same) if same else a
+        return a, b
+
+    def reduction(self, depth, kind=None):
         """A scalar node from the vector/matrix API."""
         r = self.rng
         poly = self.profile == "poly"
-        opts = ["sum", "lincomb", "lincomb_e", "esum", "powsum_nat", "dot", "qf", "msum"]
+        opts = list(self.RED_POLY)
         if not poly:
-            opts += ["dot", "dot_overlap", "dot_e", "powsum", "unsum", "l2", "l1", "l2e", "l1e",
-                     "qf_e", "msum_e", "frob", "trace", "vsumfn"]
-        k = r.choice(opts)
+            opts += ["dot"] + self.RED_MORE
+        k = kind or r.choice(opts)
         self.hit("red:" + k)
+        if k == "dot_hi":
+            # a plain view against a vector EXPRESSION of higher degree, in both operand orders
+            x = self.view()
+            w = self.vec(x.size, 0)
+            hi = (w * self.rng.choice([2, -1, 3])) ** r.choice([2, 3]) if (poly or r.random() < 0.6) else FN[r.choice(UNARY_VEC)](w + 0)
+            return x.dot(hi) if r.random() < 0.5 else hi.dot(x)
+        if k == "siblings":
+            a, b = self.siblings()
+            form = r.choice(["lincomb2", "qf2", "dot", "lincomb_dot"] if not poly else ["lincomb2", "qf2", "dot"])
+            ca, cb = self.coeffs_distinct(a.size), self.coeffs_distinct(b.size)
+            if form == "lincomb2":
+                return ca @ a + cb @ b
+            if form == "qf2":
+                Q = self.matrix_asym(a.size)
+                return a.dot(Q @ a) + b.dot(Q @ b)
+            if form == "dot":
+                return a.dot(b) + ca @ b
+            return (ca @ a) * (cb @ b)
         if k == "sum":
             return self.view().sum()
         if k == "lincomb":
@@ -290,3 +334,74 @@ class Gen:
         fn = r.choice(UNARY_ALL + (["abs"] if self.profile == "all" else []))
         self.hit("un:" + fn)
         return FN[fn](self.expr(depth - 1))
+
+
+    # ---- focused corpus: every reduction kind under every one-node context ----
+    def bases(self):
+        kinds = list(self.RED_POLY) + ([] if self.profile == "poly" else list(self.RED_MORE))
+        return ["var", "prod", "var**2", "var**3", "(v+c)**2", "-var", "c*var"] + (["param"] if self.pool.params else []) + kinds
+
+    def base(self, name):
+        r = self.rng
+        if name == "var":
+            return r.choice(self.pool.all_scalar_vars())
+        if name == "param":
+            return r.choice(self.pool.params) * r.choice(self.pool.all_scalar_vars())
+        if name == "prod":
+            vs = self.pool.all_scalar_vars()
+            return r.choice(vs) * r.choice(vs)
+        if name == "var**2":
+            return r.choice(self.pool.all_scalar_vars()) ** 2
+        if name == "var**3":
+            return r.choice(self.pool.all_scalar_vars()) ** r.choice([3, 4, 2.0])
+        if name == "(v+c)**2":
+            return (r.choice(self.pool.all_scalar_vars()) + r.choice([1, -0.5, 2])) ** 2
+        if name == "-var":
+            return -r.choice(self.pool.all_scalar_vars())
+        if name == "c*var":
+            return r.choice([2, -3, 0.5]) * r.choice(self.pool.all_scalar_vars())
+        return self.reduction(1, kind=name)
+
+    def contexts(self):
+        r = self.rng
+        c = lambda: r.choice([2, 3, -1, 0.5, 1.5, -2, 4, 1, 0])
+        cn = lambda: r.choice([2, 3, -1, 0.5, 1.5, -2, 4])
+        leaf = lambda: r.choice(self.pool.all_scalar_vars())
+        ctx = [("id", lambda f: f), ("c-f", lambda f: c() - f), ("f-c", lambda f: f - c()), ("c+f", lambda f: c() + f),
+               ("f+c", lambda f: f + c()), ("c*f", lambda f: c() * f), ("f*c", lambda f: f * c()), ("f/c", lambda f: f / cn()),
+               ("neg", lambda f: -f), ("f**2", lambda f: f ** 2), ("f**3", lambda f: f ** 3), ("f**1", lambda f: f ** 1),
+               ("f+v", lambda f: f + leaf()), ("v-f", lambda f: leaf() - f), ("f*v", lambda f: f * leaf()), ("v*f", lambda f: leaf() * f),
+               ("C-f", lambda f: Constant(c()) - f), ("C*f", lambda f: Constant(cn()) * f), ("f/C", lambda f: f / Constant(cn())),
+               ("f/(C/c)", lambda f: f / (Constant(4.0) / 2)), ("f*(C+c)", lambda f: f * (Constant(cn()) + 1))]
+        if self.profile != "poly":
+            ctx += [("c/f", lambda f: cn() / f), ("f**-1", lambda f: f ** -1), ("f**0.5", lambda f: f ** 0.5), ("f**1.5", lambda f: f ** 1.5),
+                    ("f**-2", lambda f: f ** -2), ("v/f", lambda f: leaf() / f), ("exp", lambda f: FN["exp"](f)), ("sin", lambda f: FN["sin"](f)),
+                    ("sqrt", lambda f: FN["sqrt"](f)), ("log", lambda f: FN["log"](f)), ("tanh", lambda f: FN["tanh"](f)),
+                    ("f**v", lambda f: f ** leaf()), ("c**f", lambda f: Constant(2.0) ** f)]
+            if self.profile == "all":
+                ctx += [("abs", lambda f: FN["abs"](f))]
+                if self.pool.params:
+                    ctx += [("p*f", lambda f: r.choice(self.pool.params) * f), ("f-p", lambda f: f - r.choice(self.pool.params)),
+                            ("f**p", lambda f: f ** r.choice(self.pool.params))]
+        return ctx
+
+    def focused_size(self):
+        return len(self.bases()) * len(self.contexts())
+
+    def focused(self, i):
+        """i-th member of the focused corpus: base (i mod nb) under context (i div nb mod nc);
+        beyond nb*nc a second context is stacked on top (pairs of contexts)."""
+        bs, cs = self.bases(), self.contexts()
+        nb, nc = len(bs), len(cs)
+        b = bs[i % nb]
+        c1 = cs[(i // nb) % nc]
+        e = c1[1](self.base(b))
+        label = f"{c1[0]}({b})"
+        j = i // (nb * nc)
+        if j > 0:
+            c2 = cs[(j - 1 + (i // nb)) % nc]
+            e = c2[1](e)
+            label = f"{c2[0]}({label})"
+        self.hit("focus:" + label.split("(")[0])
+        self.label = label
+        return e
